@@ -448,7 +448,33 @@ func (w *World) lockAnalysis() *lckResult {
 		return o != nil && (o == gm || o == am || o == jw)
 	}
 	rmwWant := lr.wantState
+	// … and before the calls of the engine functions that contain such a step (a critical section moved into a method
+	// whose callers take the lock), two levels
+	rmwFns := map[*ssa.Function]bool{}
+	for level := 0; level < 2; level++ {
+		var add []*ssa.Function
+		for _, f := range w.pkgSSAFuncs("pkg/engine") {
+			if rmwFns[f] {
+				continue
+			}
+			for _, b := range f.Blocks {
+				for _, in := range b.Instrs {
+					if level == 0 && rmwWant(in) {
+						add = append(add, f)
+					} else if cc := callCommon(in); level > 0 && cc != nil && cc.StaticCallee() != nil && rmwFns[cc.StaticCallee()] {
+						add = append(add, f)
+					}
+				}
+			}
+		}
+		for _, f := range add {
+			rmwFns[f] = true
+		}
+	}
 	lr.wantState = func(in ssa.Instruction) bool {
+		if c, ok := in.(*ssa.Call); ok && c.Call.StaticCallee() != nil && rmwFns[c.Call.StaticCallee()] {
+			return true
+		}
 		return rmwWant(in) || isEventChanOp(in) != "" || isIndexClosedTest(in) || isCallTo(in, "encoding/gob", "Encoder.Encode") || isSharedArrayElemStore(in) != ""
 	}
 	lr.g = w.VTA()
@@ -1943,6 +1969,10 @@ func ruleGRDrmw(w *World, r *Report, lr *lckResult) {
 			for i, in := range st.ins {
 				state, ok := lr.mustAt[in]
 				held := ok && mustHoldsClass(state, cls)
+				if !held && fn.Parent() == nil {
+					// the critical section was moved into a method whose callers take the lock ("…Locked")
+					held = heldAtAllCallSites(w, lr, fn, cls, 0)
+				}
 				r.Cond(held, "GRD-rmw", fmt.Sprintf("%s:%s#%d-under-node-lock", nm, st.what, i+1), w.Pos(in.Pos()), "per-node metadata lock held",
 					fmt.Sprintf("%s performs the %s of its metadata read-modify-write without holding the per-node metadata lock: two concurrent updates of the same node both read the old map and the later write-back (and its journal record) overwrites the other — increments and merged keys are lost, also after restart", nm, st.what))
 			}
@@ -1951,6 +1981,41 @@ func ruleGRDrmw(w *World, r *Report, lr *lckResult) {
 	if n == 0 {
 		r.Und("GRD-rmw", "anchor:metadata-rmw-operations", "", "no engine operation with a metadata read-modify-write found")
 	}
+}
+
+// heldAtAllCallSites: fn is called (statically, from the module) and every call is made with a lock of class cls held —
+// at the call itself, or, for a caller that is itself only called under the lock, one level up.
+func heldAtAllCallSites(w *World, lr *lckResult, fn *ssa.Function, cls string, depth int) bool {
+	if depth > 2 {
+		return false
+	}
+	callers := w.staticCallersOf(fn)
+	if len(callers) == 0 {
+		return false
+	}
+	n := 0
+	for g := range callers {
+		for _, b := range g.Blocks {
+			for _, in := range b.Instrs {
+				cc := callCommon(in)
+				if cc == nil || cc.StaticCallee() != fn {
+					continue
+				}
+				if _, isCall := in.(*ssa.Call); !isCall {
+					return false // go / defer: the caller's lock state at the statement says nothing about the run
+				}
+				n++
+				if st, ok := lr.mustAt[in]; ok && mustHoldsClass(st, cls) {
+					continue
+				}
+				if g.Parent() == nil && heldAtAllCallSites(w, lr, g, cls, depth+1) {
+					continue
+				}
+				return false
+			}
+		}
+	}
+	return n > 0
 }
 
 func valueDerivesFrom(v ssa.Value, src ssa.Value, depth int) bool {
